@@ -69,3 +69,33 @@ def elem_bytes(elem_addr, elsize):
     """[steps, elems] element addresses (in elements) -> [steps, elems*elsize] byte offsets."""
     a = np.asarray(elem_addr, dtype=np.int64) * elsize
     return (a[:, :, None] + np.arange(elsize, dtype=np.int64)[None, None, :]).reshape(a.shape[0], -1)
+
+
+def match_steps(hw, exp):
+    """Compare a hardware byte stream [hw steps, bytes per hw step] with a scheduled byte stream [schedule steps, bytes per schedule step].
+    None if equal step by step; ("fillup", g) if one hardware step is the concatenation of g consecutive schedule steps (the documented spatial
+    fill-up of convert_dart_to_snax_stream.py: a spatial schedule bound smaller than the hardware unrolling lets the streamer take over part of the
+    next dimension) or - for data identical in all g steps - that data once; else (kind of mismatch, info).
+    Same rule as the `match` helper of props/C02.py (sub `streams`); here as a module function for the other subs."""
+    if hw.shape == exp.shape:
+        if (hw == exp).all():
+            return None
+        bad = int(np.argwhere((hw != exp).any(axis=1))[0][0])
+        same_set = bool((np.sort(hw, axis=1) == np.sort(exp, axis=1)).all())
+        return ("byte-order-within-step-differs" if same_set else "bytes-of-step-differ",
+                dict(first_bad_step=bad, hw=hw[bad][:32].tolist(), expected=exp[bad][:32].tolist()))
+    if hw.shape[0] and exp.shape[0] % hw.shape[0] == 0 and exp.shape[0] > hw.shape[0]:
+        g = exp.shape[0] // hw.shape[0]
+        grouped = exp.reshape(hw.shape[0], g, exp.shape[1])
+        if hw.shape[1] == g * exp.shape[1]:
+            flat = grouped.reshape(hw.shape[0], -1)
+            if (hw == flat).all():
+                return ("fillup", g)
+            bad = int(np.argwhere((hw != flat).any(axis=1))[0][0])
+            return ("bytes-of-step-differ", dict(first_bad_step=bad, fill_up=g, hw=hw[bad][:32].tolist(), expected=flat[bad][:32].tolist()))
+        if hw.shape[1] == exp.shape[1] and (grouped == grouped[:, :1, :]).all() and (hw == grouped[:, 0, :]).all():
+            return ("fillup", g)
+    if hw.shape[0] != exp.shape[0]:
+        return ("number-of-temporal-steps-differs", dict(hw_steps=int(hw.shape[0]), expected_steps=int(exp.shape[0]),
+                                                       hw_bytes_per_step=int(hw.shape[1]), expected_bytes_per_step=int(exp.shape[1])))
+    return ("bytes-per-step-differ", dict(hw_bytes=int(hw.shape[1]), expected_bytes=int(exp.shape[1])))
